@@ -46,10 +46,50 @@ macro_rules! harnesses {
 
 #[cfg(feature = "g_map")]
 pub mod g_map;
+#[cfg(feature = "g_iter")]
+pub mod g_iter;
+#[cfg(feature = "g_set")]
+pub mod g_set;
+#[cfg(feature = "g_alg")]
+pub mod g_alg;
+#[cfg(feature = "g_full")]
+pub mod g_full;
+#[cfg(feature = "g_panic")]
+pub mod g_panic;
+#[cfg(feature = "g_entry")]
+pub mod g_entry;
+#[cfg(feature = "g_misc")]
+pub mod g_misc;
+#[cfg(feature = "g_liar")]
+pub mod g_liar;
+#[cfg(feature = "g_fmt")]
+pub mod g_fmt;
+#[cfg(feature = "g_serde")]
+pub mod g_serde;
 
 /// all harnesses compiled into this build (name -> function), for the replay binary
 pub fn registry(mut f: impl FnMut(&'static str, fn())) {
     #[cfg(feature = "g_map")]
     for (n, h) in g_map::LIST { f(n, *h) }
+    #[cfg(feature = "g_iter")]
+    for (n, h) in g_iter::LIST { f(n, *h) }
+    #[cfg(feature = "g_set")]
+    for (n, h) in g_set::LIST { f(n, *h) }
+    #[cfg(feature = "g_alg")]
+    for (n, h) in g_alg::LIST { f(n, *h) }
+    #[cfg(feature = "g_full")]
+    for (n, h) in g_full::LIST { f(n, *h) }
+    #[cfg(feature = "g_panic")]
+    for (n, h) in g_panic::LIST { f(n, *h) }
+    #[cfg(feature = "g_entry")]
+    for (n, h) in g_entry::LIST { f(n, *h) }
+    #[cfg(feature = "g_misc")]
+    for (n, h) in g_misc::LIST { f(n, *h) }
+    #[cfg(feature = "g_liar")]
+    for (n, h) in g_liar::LIST { f(n, *h) }
+    #[cfg(feature = "g_fmt")]
+    for (n, h) in g_fmt::LIST { f(n, *h) }
+    #[cfg(feature = "g_serde")]
+    for (n, h) in g_serde::LIST { f(n, *h) }
     let _ = &mut f;
 }
